@@ -212,6 +212,10 @@ func (muxerSlice) Gen(r *rand.Rand, _ int, tier string) ([]string, []string) {
 	if boundary {
 		tags = append(tags, "keyframe-at-segmin-boundary")
 	}
+	bigUnits := r.Intn(10) == 0 && !smallMax
+	if bigUnits {
+		tags = append(tags, "big-units")
+	}
 	malformedWrites := r.Intn(30) == 0
 	if malformedWrites {
 		tags = append(tags, "malformed-writes")
@@ -255,6 +259,9 @@ func (muxerSlice) Gen(r *rand.Rand, _ int, tier string) ([]string, []string) {
 		}
 		if smallMax && r.Intn(3) == 0 {
 			fill = 100 + r.Intn(600)
+		}
+		if bigUnits && r.Intn(8) == 0 && isVideoCodec(t.codec) { // an AAC AU cannot exceed the 13-bit ADTS frame length
+			fill = 30000 + r.Intn(110000) // parts / segments that a reader's 32 KiB buffer crosses several times
 		}
 		var op string
 		if t.bf {
